@@ -470,6 +470,7 @@ pub trait VxStr {
     fn vx_trim<'a>(&'a self) -> (r: &'a str) ensures (vstd::utf8::is_ascii_chars(self.sv()) ==> r.spec_bytes().len() == r@.len()), r@ == trim_spec(self.sv());
     fn vx_trim_start<'a>(&'a self) -> (r: &'a str) ensures (vstd::utf8::is_ascii_chars(self.sv()) ==> r.spec_bytes().len() == r@.len()), r@ == trim_start_spec(self.sv(), |c: char| ws(c));
     fn vx_trim_end<'a>(&'a self) -> (r: &'a str) ensures (vstd::utf8::is_ascii_chars(self.sv()) ==> r.spec_bytes().len() == r@.len()), r@ == trim_end_spec(self.sv(), |c: char| ws(c));
+    fn vx_trim_end_matches2<'a>(&'a self, c1: char, c2: char) -> (r: &'a str) ensures (vstd::utf8::is_ascii_chars(self.sv()) ==> r.spec_bytes().len() == r@.len()), r@ == trim_end_spec(self.sv(), |c: char| c == c1 || c == c2);
     fn vx_trim_end_matches<'a>(&'a self, c: char) -> (r: &'a str) ensures (vstd::utf8::is_ascii_chars(self.sv()) ==> r.spec_bytes().len() == r@.len()), r@ == trim_end_char_spec(self.sv(), c);
     fn vx_trim_start_matches<'a>(&'a self, c: char) -> (r: &'a str) ensures (vstd::utf8::is_ascii_chars(self.sv()) ==> r.spec_bytes().len() == r@.len()), r@ == trim_start_char_spec(self.sv(), c);
     fn vx_replace_char(&self, from: char, to: &str) -> (r: String) ensures r@ == replace_char_spec(self.sv(), from, to@);
@@ -507,6 +508,9 @@ pub trait VxStr {
     fn vx_parse_u16(&self) -> (r: Result<u16, core::num::ParseIntError>)
         ensures r.is_ok() == parse_unsigned_spec(self.sv(), u16::MAX as nat).is_some(),
                 r.is_ok() ==> r.unwrap() as nat == parse_unsigned_spec(self.sv(), u16::MAX as nat).unwrap();
+    fn vx_parse_u64(&self) -> (r: Result<u64, core::num::ParseIntError>)
+        ensures r.is_ok() == parse_unsigned_spec(self.sv(), u64::MAX as nat).is_some(),
+                r.is_ok() ==> r.unwrap() as nat == parse_unsigned_spec(self.sv(), u64::MAX as nat).unwrap();
     fn vx_parse_usize(&self) -> (r: Result<usize, core::num::ParseIntError>)
         ensures r.is_ok() == parse_unsigned_spec(self.sv(), usize::MAX as nat).is_some(),
                 r.is_ok() ==> r.unwrap() as nat == parse_unsigned_spec(self.sv(), usize::MAX as nat).unwrap();
@@ -528,6 +532,7 @@ impl VxStr for str {
     #[verifier::external_body] fn vx_trim<'a>(&'a self) -> (r: &'a str) { self.trim() }
     #[verifier::external_body] fn vx_trim_start<'a>(&'a self) -> (r: &'a str) { self.trim_start() }
     #[verifier::external_body] fn vx_trim_end<'a>(&'a self) -> (r: &'a str) { self.trim_end() }
+    #[verifier::external_body] fn vx_trim_end_matches2<'a>(&'a self, c1: char, c2: char) -> (r: &'a str) { self.trim_end_matches([c1, c2]) }
     #[verifier::external_body] fn vx_trim_end_matches<'a>(&'a self, c: char) -> (r: &'a str) { self.trim_end_matches(c) }
     #[verifier::external_body] fn vx_trim_start_matches<'a>(&'a self, c: char) -> (r: &'a str) { self.trim_start_matches(c) }
     #[verifier::external_body] fn vx_replace_char(&self, from: char, to: &str) -> (r: String) { self.replace(from, to) }
@@ -545,6 +550,7 @@ impl VxStr for str {
     #[verifier::external_body] fn vx_parse_u32(&self) -> (r: Result<u32, core::num::ParseIntError>) { self.parse::<u32>() }
     #[verifier::external_body] fn vx_parse_u8(&self) -> (r: Result<u8, core::num::ParseIntError>) { self.parse::<u8>() }
     #[verifier::external_body] fn vx_parse_u16(&self) -> (r: Result<u16, core::num::ParseIntError>) { self.parse::<u16>() }
+    #[verifier::external_body] fn vx_parse_u64(&self) -> (r: Result<u64, core::num::ParseIntError>) { self.parse::<u64>() }
     #[verifier::external_body] fn vx_parse_usize(&self) -> (r: Result<usize, core::num::ParseIntError>) { self.parse::<usize>() }
     #[verifier::external_body] fn vx_parse_i32(&self) -> (r: Result<i32, core::num::ParseIntError>) { self.parse::<i32>() }
     #[verifier::external_body] fn vx_parse_f64(&self) -> (r: Result<f64, core::num::ParseFloatError>) { self.parse::<f64>() }
@@ -775,15 +781,22 @@ impl VxF64 for f64 {
 }
 
 // ---------------------------------------------------------------- Vec idioms
+/// what `Vec::extend` may be given: a vector (its elements in order) or an option (its value, if any)
+pub trait VxItems<T>: Sized { spec fn items(self) -> Seq<T>; fn into_vec(self) -> (r: Vec<T>) ensures r@ == self.items(); }
+impl<T> VxItems<T> for Vec<T> { open spec fn items(self) -> Seq<T> { self@ } fn into_vec(self) -> (r: Vec<T>) { self } }
+impl<T> VxItems<T> for Option<T> {
+    open spec fn items(self) -> Seq<T> { match self { Some(x) => seq![x], None => Seq::<T>::empty() } }
+    #[verifier::external_body] fn into_vec(self) -> (r: Vec<T>) { self.into_iter().collect() }
+}
 pub trait VxVec<T> {
     spec fn vv(&self) -> Seq<T>;
-    fn vx_extend(&mut self, other: Vec<T>) ensures final(self).vv() == old(self).vv() + other@;
+    fn vx_extend<I: VxItems<T>>(&mut self, other: I) ensures final(self).vv() == old(self).vv() + other.items();
     /// `Vec::remove(i)`: panics when i is out of bounds
     fn vx_remove(&mut self, i: usize) -> (r: T) requires i < old(self).vv().len() ensures final(self).vv() == old(self).vv().remove(i as int), r == old(self).vv()[i as int];
 }
 impl<T> VxVec<T> for Vec<T> {
     open spec fn vv(&self) -> Seq<T> { self@ }
-    #[verifier::external_body] fn vx_extend(&mut self, other: Vec<T>) { self.extend(other) }
+    #[verifier::external_body] fn vx_extend<I: VxItems<T>>(&mut self, other: I) { self.extend(other.into_vec()) }
     #[verifier::external_body] fn vx_remove(&mut self, i: usize) -> (r: T) { self.remove(i) }
 }
 /// `char::to_digit(10)`
@@ -896,6 +909,12 @@ impl NaiveTime {
     pub fn from_hms_opt(hour: u32, min: u32, sec: u32) -> (r: Option<NaiveTime>)
         ensures r.is_some() == valid_hms(hour as int, min as int, sec as int),
                 r.is_some() ==> r.unwrap().hms() == (hour as int, min as int, sec as int)
+    { unimplemented!() }
+    /// chrono: a time from the number of seconds since midnight (and nanoseconds, < 2_000_000_000 to allow a leap second)
+    #[verifier::external_body]
+    pub fn from_num_seconds_from_midnight_opt(secs: u32, nano: u32) -> (r: Option<NaiveTime>)
+        ensures r.is_some() == (secs < 86400 && nano < 2000000000),
+                r.is_some() ==> r.unwrap().hms() == ((secs / 3600) as int, ((secs / 60) % 60) as int, (secs % 60) as int)
     { unimplemented!() }
 }
 impl NaiveDateTime {
